@@ -83,3 +83,116 @@ def euler_iso(eng, tag):
     tv = [z3.Real(f'{tag}_t{i}') for i in range(3)]
     iso = Iso(Mat(3, 3, [F(z3.simplify(Rm[i][k])) for i in range(3) for k in range(3)], 'rot'), Mat(3, 1, [F(v) for v in tv]))
     return iso, prs, tv
+
+# ------------------------------------------------------------------------------------------------
+class SetV(Opaque):
+    """HashSet of concrete integers"""
+    def __init__(s, items): super().__init__('set', None, frozenset(items))
+    def same(s, o): return isinstance(o, SetV) and s.data == o.data
+class MapOracle(Opaque):
+    """an arbitrary HashMap<(u16,u16), f32>: for every concrete key a symbolic presence flag and value (consistent per key)"""
+    def __init__(s, name): super().__init__('map', name, {})
+    def entry(s, k):
+        if k not in s.data: s.data[k] = (z3.Bool(f'{s.name}_has_{k[0]}_{k[1]}'), z3.Real(f'{s.name}_val_{k[0]}_{k[1]}'))
+        return s.data[k]
+
+def install_collections(eng, rec=None):
+    """HashSet / HashMap / rayon / parry3d oracles for the collision code"""
+    from .symex import Inconclusive
+    from .models_std import _deq
+    rec = rec if rec is not None else {}
+    rec.setdefault('parry', []); eng.col_rec = rec
+    D = eng.deref
+    M = lambda pat, h: eng.model(pat, h, front=True)
+    one = lambda st, v: [(st, v)]
+    def conc(x):
+        if isz(x):
+            x = z3.simplify(x)
+            if z3.is_int_value(x): return x.as_long()
+            raise Inconclusive('symbolic key')
+        return int(x)
+    M(r'^std::collections::HashSet::<.*>::(with_capacity|new)$', lambda e, st, fr, f, a, m: one(st, SetV([])))
+    M(r'^std::collections::HashSet::<.*>::contains', lambda e, st, fr, f, a, m: one(st, conc(D(st, a[1])) in D(st, a[0]).data))
+    M(r'^std::collections::HashSet::<.*>::len$', lambda e, st, fr, f, a, m: one(st, len(D(st, a[0]).data)))
+    M(r'^std::collections::HashSet::<.*>::insert$', lambda e, st, fr, f, a, m: (e.write_ref(st, a[0], SetV(D(st, a[0]).data | {conc(a[1])})), one(st, True))[1])
+    def range_collect(e, st, fr, f, a, m):
+        if 'HashSet' not in f: return NotImplemented
+        r = a[0]; return one(st, SetV(range(conc(r.items[0]), conc(r.items[1]))))
+    M(r'^<std::ops::Range<usize> as std::iter::Iterator>::collect$', range_collect)
+    def map_get(e, st, fr, f, a, m):
+        mp = D(st, a[0]); key = D(st, a[1])
+        if not isinstance(mp, MapOracle): return NotImplemented
+        k = (conc(key.items[0]), conc(key.items[1]))
+        has, val = mp.entry(k)
+        cell = ('mapval', mp.name, k)
+        st.frames[0].locals[cell] = F(val)
+        return one(st, Enum(z3.If(has, 1, 0), [RefV(0, cell, ())], 'Option'))
+    M(r'^std::collections::HashMap::<.*>::get', map_get)
+    M(r'^std::collections::HashMap::<.*>::(new|with_capacity)$', lambda e, st, fr, f, a, m: one(st, Opaque('emptymap')))
+    M(r'^<&f32 as std::cmp::PartialOrd>::(gt|lt|ge|le)$', lambda e, st, fr, f, a, m: one(st, e.binop({'gt': 'Gt', 'lt': 'Lt', 'ge': 'Ge', 'le': 'Le'}[m.group(1)], D(st, a[0]), D(st, a[1]))))
+    def enum_eq(e, st, fr, f, a, m):
+        x, y = D(st, a[0]), D(st, a[1])
+        return one(st, _deq(x.disc, y.disc) if not isz(x.disc) and not isz(y.disc) else (zi(x.disc) == zi(y.disc)))
+    M(r'^<collisions::CheckMode as std::cmp::PartialEq>::eq$', enum_eq)
+    M(r'^<collisions::CheckMode as std::clone::Clone>::clone$', lambda e, st, fr, f, a, m: one(st, D(st, a[0])))
+    M(r'^<u16 as std::cmp::Ord>::min$', lambda e, st, fr, f, a, m: one(st, min(a[0], a[1]) if not isz(a[0]) and not isz(a[1]) else z3.If(zi(a[0]) <= zi(a[1]), zi(a[0]), zi(a[1]))))
+    M(r'^<u16 as std::cmp::Ord>::max$', lambda e, st, fr, f, a, m: one(st, max(a[0], a[1]) if not isz(a[0]) and not isz(a[1]) else z3.If(zi(a[0]) >= zi(a[1]), zi(a[0]), zi(a[1]))))
+    # rayon: par_iter is iteration in an unspecified order; find_map_any returns ANY hit (nondeterministic choice)
+    def par_iter(e, st, fr, f, a, m):
+        r = a[0]; v = D(st, r)
+        ents = v.ents if isinstance(v, VecV) else [(True, x) for x in v.items]
+        return one(st, IterV([(g, r.sub(i)) for i, (g, _) in enumerate(ents)], 'ref'))
+    M(r'as rayon::iter::IntoParallelRefIterator<.*>>::par_iter$', par_iter)
+    def find_map_any(e, st, fr, f, a, m):
+        it, clo = a; hits = []
+        for g, x in it.ents:
+            st, o = e.call1(st, fr, clo, [x]); hits.append((b_and(g, _deq(o.disc, 1)), o.items[0] if o.items else None))
+        rec.setdefault('find_map_any', []).append(hits)
+        if not hits: return one(st, NONE())
+        anyhit = b_or(*[g for g, _ in hits])
+        # choice: selector i means "returns hit i" and requires hit i to be real
+        n = len(hits); sel = fresh('choice', 'int')
+        st.assume(z3.And(sel >= 0, sel < n, z3.Implies(zb(anyhit), z3.Or([z3.And(sel == i, zb(hits[i][0])) for i in range(n)]))))
+        val = hits[0][1]
+        for i in range(1, n):
+            if hits[i][1] is not None: val = ite_data(sel == i, hits[i][1], val) if val is not None else hits[i][1]
+        return one(st, Enum(z3.If(zb(anyhit), 1, 0) if isz(anyhit) else (1 if anyhit else 0), [val], 'Option'))
+    M(r'as rayon::iter::ParallelIterator>::find_map_any$', find_map_any)
+    def par_filter_map(e, st, fr, f, a, m):
+        it, clo = a; out = []
+        for g, x in it.ents:
+            res = e.call_closure(st, fr, clo, [x])
+            if len(res) != 1: raise Inconclusive('closure of a parallel filter_map forks')
+            st, o = res[0]; out.append((b_and(g, _deq(o.disc, 1)), o.items[0] if o.items else None))
+        return one(st, IterV(out, 'val'))
+    M(r'as rayon::iter::ParallelIterator>::filter_map$', par_filter_map)
+    M(r'as rayon::iter::ParallelIterator>::collect$', lambda e, st, fr, f, a, m: one(st, VecV(a[0].ents)))
+    M(r'^<std::option::Option<.*> as std::iter::IntoIterator>::into_iter$', lambda e, st, fr, f, a, m: one(st, IterV([(_deq(a[0].disc, 1), a[0].items[0] if a[0].items else None)], 'val')))
+    M(r'^<std::option::IntoIter<.*> as std::iter::Iterator>::collect$', lambda e, st, fr, f, a, m: one(st, VecV(a[0].ents)))
+    M(r'^<std::ops::Range<usize> as std::iter::Iterator>::rev$', lambda e, st, fr, f, a, m: one(st, IterV([(True, i) for i in reversed(range(conc(a[0].items[0]), conc(a[0].items[1])))], 'val')))
+    def array_map(e, st, fr, f, a, m):
+        arr, clo = a; out = []
+        for x in arr.items:
+            st, v = e.call1(st, fr, clo, [x]); out.append(v)
+        return one(st, Agg(out))
+    M(r'^std::array::<impl \[.*\]>::map$|^std::array::map$', array_map)
+    M(r'isometry_construction::<impl .*>::cast$|Isometry::<.*>::cast$', lambda e, st, fr, f, a, m: one(st, a[0]))
+    # parry3d
+    def isect(e, st, fr, f, a, m):
+        args = tuple(D(st, x) for x in a)
+        key = ('isect',) + tuple(id(x) if not isinstance(x, Opaque) else (x.kind, x.name, str(x.data)) for x in args)
+        b = z3.Bool('intersects!' + str(len(rec['parry']))); rec['parry'].append(dict(q='intersection_test', args=args, res=b))
+        return one(st, Ok(b))
+    M(r'^parry3d::query::intersection_test$', isect)
+    def dist(e, st, fr, f, a, m):
+        args = tuple(D(st, x) for x in a); d = fresh('distance'); e.side.append(d >= 0); e.side_lin.append(d >= 0)
+        rec['parry'].append(dict(q='distance', args=args, res=d)); return one(st, Ok(F(d)))
+    M(r'^parry3d::query::distance$', dist)
+    M(r'^parry3d::shape::TriMesh::vertices$', lambda e, st, fr, f, a, m: one(st, Opaque('verts', D(st, a[0]).name)))
+    M(r'^parry3d::shape::TriMesh::local_aabb$', lambda e, st, fr, f, a, m: one(st, Opaque('aabb', D(st, a[0]).name)))
+    M(r'BoundingVolume>::loosened$', lambda e, st, fr, f, a, m: one(st, Opaque('aabb', D(st, a[0]).name, data=('loosened', a[1]))))
+    def vlen_opaque(e, st, fr, f, a, m):
+        v = D(st, a[0])
+        if isinstance(v, Opaque) and v.kind == 'verts': return one(st, z3.Int(f'nverts_{v.name}'))
+        return NotImplemented
+    M(r'^std::vec::Vec::<.*>::len$|core::slice::<impl \[.*\]>::len$', vlen_opaque)
